@@ -51,6 +51,21 @@ class PrunedPath(BaseException):
 
 # --------------------------------------------------------------------------- context
 
+class _Obligations(list):
+    """obligation list that remembers how many division guards (`divisor != 0`, asserted for the code AFTER a
+    division) existed when each obligation was recorded: a guard must not be assumed for the obligation that checks it
+    nor for anything recorded before it"""
+
+    def __init__(self, ctx_):
+        super().__init__()
+        self.ctx_ = ctx_
+        self.nguards = []
+
+    def append(self, ob):
+        super().append(ob)
+        self.nguards.append(len(self.ctx_.div_guards))
+
+
 class Ctx:
     """one execution of the code under test along one decision prefix"""
     cur = None
@@ -62,7 +77,8 @@ class Ctx:
         self.pos = 0
         self.path = []             # z3 bools decided along this run
         self.known = {}            # ast id -> bool already decided on this path
-        self.oblig = []            # (label, z3 bool, kind, relaxed z3 bool or None)
+        self.div_guards = []       # z3 bools `divisor != 0`, in execution order
+        self.oblig = _Obligations(self)      # (label, z3 bool, kind, relaxed z3 bool or None[, (lhs, rhs, tol)])
         self.nfresh = 0
         self.atoms = {}            # atom name -> (v, s, c) z3 reals
         self.atom_meta = {}        # atom name -> dict(kind=..., range=(lo,hi))
@@ -143,7 +159,7 @@ class Ctx:
             return None
         from .poly import Normalizer, TooBig
         try:
-            nf, zero = Normalizer(self.rules, 80000).normal_form(c.arg(0) - c.arg(1))
+            nf, zero = Normalizer(self.rules, 80000, budget_s=8.0).normal_form(c.arg(0) - c.arg(1))
         except TooBig:
             return None
         nf = z3.simplify(nf)
@@ -456,8 +472,8 @@ def _divcheck(b):
             raise ZeroDivisionError('float division by zero')
         return
     c.require('div-by-zero', b.e != 0, 'div0')
-    # continue under b != 0 (a feasible zero divisor is reported through the obligation)
-    c.path.append(b.e != 0)
+    # the code after the division runs under b != 0 (a feasible zero divisor is reported through the obligation above)
+    c.div_guards.append(b.e != 0)
 
 
 def _const_resolve(c, b, cands=(1, -1)):
@@ -478,6 +494,7 @@ def _const_resolve(c, b, cands=(1, -1)):
         s.set('timeout', 500)
         s.add(*c.assumptions)
         s.add(*c.path)
+        s.add(*c.div_guards)
         s.add(b.e != k)
         if str(s.check()) == 'unsat':
             out = k
@@ -511,7 +528,8 @@ def _div(a, b):
         rk = ('recip', b.e.get_id())
         if rk not in c.div_memo:
             rho = c.fresh('rcp')
-            c.assumptions.append(rho * b.e == 1)
+            # conditional: an unconditional rho*b == 1 would silently assert b != 0 for the whole path
+            c.assumptions.append(z3.Implies(b.e != 0, rho * b.e == 1))
             c.recips.append((rho, b.e))
             c.div_memo[rk] = (rho, b.e)
         c.div_memo[key] = (a.e * c.div_memo[rk][0], a.e, b.e)
@@ -629,6 +647,7 @@ def _abs_resolved(c, g):
         s.set('timeout', 1000)
         s.add(*c.assumptions)
         s.add(*c.path)
+        s.add(*c.div_guards)
         s.add(neg)
         if str(s.check()) == 'unsat':
             return g if sign == 1 else -g
@@ -648,6 +667,8 @@ def _sqrt_resolve(c, x, use_solver=True):
         from .poly import which_zero
         prev = [v[0] for v in c.sqrt_memo.values() if isinstance(v[0], Term) and v[0].const is None]
         prev = prev + [Term(e) for (e, _t) in getattr(c, 'exps', [])]      # exp(t) > 0 is a root candidate too
+        for (_v, sa, ca) in list(c.atoms.values())[:8]:
+            prev = prev + [Term(sa), Term(ca)]                              # |sin a|, |cos a| (e.g. |vex(R - R^T)| / 2)
         hints = hints + prev + [prev[i] * prev[j] for i in range(len(prev)) for j in range(i, len(prev))]
         k = which_zero(c.rules, [x.e - g.e * g.e for g in hints], recips=c.recips)
         if k is not None:
@@ -661,6 +682,7 @@ def _sqrt_resolve(c, x, use_solver=True):
         s.set('timeout', 2000)
         s.add(*c.assumptions)
         s.add(*c.path)
+        s.add(*c.div_guards)
         s.add(x.e != g.e * g.e)
         if str(s.check()) == 'unsat':
             c.notes.append(('sqrt-resolved', str(g)[:60]))
@@ -843,7 +865,7 @@ def _canonical(c, t):
         return t
     from .poly import Normalizer, TooBig
     try:
-        nf, zero = Normalizer(c.rules, 4000).normal_form(t.e)
+        nf, zero = Normalizer(c.rules, 4000, budget_s=3.0).normal_form(t.e)
     except TooBig:
         return t
     if zero:
